@@ -6,6 +6,7 @@ package main
 // quantifier), closures and small helpers returning a sum are inlined, everything else is an atom.
 
 import (
+	"regexp"
 	"fmt"
 	"go/token"
 	"sort"
@@ -86,6 +87,13 @@ func (ac *affineCtx) form(v ssa.Value, env *Env) Affine {
 		return ac.atomTerm(v, env)
 	}
 	switch x := v.(type) {
+	case *ssa.Parameter:
+		// a Currency/integer parameter of an inlined helper: the form of the argument it is bound to
+		if env != nil {
+			if bv, ok := env.paramVals[x]; ok && bv.v != nil && ac.depth < 40 && bv.env != env {
+				return ac.form(bv.v, bv.env)
+			}
+		}
 	case *ssa.Phi:
 		if ac.selfPhi[x] {
 			return Affine{selfTerm + x.Name(): 1}
@@ -274,14 +282,24 @@ type Equation struct {
 func matchTerms(form Affine, pats []string) (missing []string, extra []string) {
 	used := map[string]bool{}
 	for _, p := range pats {
-		re := mustRe(pat(p))
+		// alternatives of one term (the same quantity reached through a helper): "a || b"
+		var res []*regexp.Regexp
+		for _, alt := range strings.Split(p, " || ") {
+			res = append(res, mustRe(pat(alt)))
+		}
 		found := false
 		for t, c := range form {
 			tt := strings.TrimPrefix(t, "cond:")
 			if used[t] || c != 1 {
 				continue
 			}
-			if re.MatchString(tt) {
+			m := false
+			for _, re := range res {
+				if re.MatchString(tt) {
+					m = true
+				}
+			}
+			if m {
 				used[t] = true
 				found = true
 				break
@@ -305,10 +323,38 @@ func matchTerms(form Affine, pats []string) (missing []string, extra []string) {
 	return
 }
 
-// CheckEquation finds a rejecting guard whose two sides have exactly the expected affine forms.
+// CheckEquation finds a rejecting guard whose two sides have exactly the expected affine forms. The identity
+// may be split over cases of a nil test: a guard evaluated only where "Q == nil" need not mention terms rooted
+// in Q (they are empty there), provided another guard covers "Q != nil". A sum over a collection may be written
+// as its element 0 where a rejecting guard forces the collection to have exactly one element.
 func (ge *GuardEngine) CheckEquation(c *Ctx, rule string, eq Equation, guards []Guard) {
 	best := ""
 	bestWhere := ""
+	// collections forced to a single element
+	single := map[string]bool{}
+	for _, g := range guards {
+		if !g.Weak && g.Op == "!=" && g.R == "const:1" && strings.HasPrefix(g.L, "len(") && strings.HasSuffix(g.L, ")") {
+			single[g.L[4:len(g.L)-1]] = true
+		}
+	}
+	normalise := func(f Affine) Affine {
+		if len(single) == 0 {
+			return f
+		}
+		out := Affine{}
+		for t, k := range f {
+			for x := range single {
+				t = strings.ReplaceAll(strings.ReplaceAll(t, x+"[const:0]", x+"[*]"), x+"[0]", x+"[*]")
+			}
+			out[t] += k
+		}
+		return out
+	}
+	nilCtx := regexp.MustCompile(`^(.+) (==|!=) nil$`)
+	type caseOK struct {
+		q, op, where, desc string
+	}
+	var cases []caseOK
 	for _, g := range guards {
 		if g.Weak || g.CondV == nil {
 			continue
@@ -318,16 +364,47 @@ func (ge *GuardEngine) CheckEquation(c *Ctx, rule string, eq Equation, guards []
 			continue
 		}
 		ge.pv.loadCtx = []ssa.Instruction{g.IfPos}
-		fa, fb := ge.AffineOf(a, g.Env), ge.AffineOf(b, g.Env)
+		fa, fb := normalise(ge.AffineOf(a, g.Env)), normalise(ge.AffineOf(b, g.Env))
+		// pointers known nil where this guard is evaluated
+		var nilQ, nonNilQ []string
+		for _, d := range g.Ctx {
+			if m := nilCtx.FindStringSubmatch(d); m != nil {
+				if m[2] == "==" {
+					nilQ = append(nilQ, m[1])
+				} else {
+					nonNilQ = append(nonNilQ, m[1])
+				}
+			}
+		}
+		vacuous := func(missing []string) (rest []string, usedQ string) {
+			for _, p := range missing {
+				vac := false
+				for _, q := range nilQ {
+					if strings.HasPrefix(p, q+".") {
+						vac, usedQ = true, q
+					}
+				}
+				if !vac {
+					rest = append(rest, p)
+				}
+			}
+			return
+		}
 		for _, orient := range [][2]Affine{{fa, fb}, {fb, fa}} {
 			ml, el := matchTerms(orient[0], eq.LHS)
 			mr, er := matchTerms(orient[1], eq.RHS)
-			score := len(ml) + len(el) + len(mr) + len(er)
 			// candidate if at least half of the expected terms are present
 			present := len(eq.LHS) + len(eq.RHS) - len(ml) - len(mr)
 			if present*2 < len(eq.LHS)+len(eq.RHS) {
 				continue
 			}
+			ml, q1 := vacuous(ml)
+			mr, q2 := vacuous(mr)
+			usedQ := q1
+			if usedQ == "" {
+				usedQ = q2
+			}
+			score := len(ml) + len(el) + len(mr) + len(er)
 			where := c.P.Pos(g.Pos)
 			if score == 0 {
 				op := g.Op
@@ -336,13 +413,35 @@ func (ge *GuardEngine) CheckEquation(c *Ctx, rule string, eq Equation, guards []
 					bestWhere = where
 					continue
 				}
-				if why := ge.siteProblems(g, nil); why != "" {
+				var allowed []*regexp.Regexp
+				caseQ, caseOp := "", ""
+				if usedQ != "" {
+					caseQ, caseOp = usedQ, "=="
+				} else {
+					for _, q := range nonNilQ {
+						// the complementary case of a split: only counts as such if the other side turns up too
+						for _, t := range append(append([]string{}, eq.LHS...), eq.RHS...) {
+							if strings.HasPrefix(t, q+".") {
+								caseQ, caseOp = q, "!="
+							}
+						}
+					}
+				}
+				if caseQ != "" {
+					allowed = append(allowed, regexp.MustCompile("^"+regexp.QuoteMeta(caseQ+" "+caseOp+" nil")+"$"))
+				}
+				if why := ge.siteProblems(g, allowed); why != "" {
 					best = why
 					bestWhere = where
 					continue
 				}
-				c.OK(rule, eq.ID, where, fmt.Sprintf("rejects unless  %s  ==  %s   [%s]", orient[0], orient[1], eq.Clause))
-				return
+				desc := fmt.Sprintf("rejects unless  %s  ==  %s", orient[0], orient[1])
+				if caseQ == "" {
+					c.OK(rule, eq.ID, where, desc+"   ["+eq.Clause+"]")
+					return
+				}
+				cases = append(cases, caseOK{caseQ, caseOp, where, desc + "  (where " + caseQ + " " + caseOp + " nil)"})
+				continue
 			}
 			msg := fmt.Sprintf("balance check compares  %s  with  %s ; missing terms: lhs %v rhs %v ; unexpected terms: lhs %v rhs %v", orient[0], orient[1], ml, mr, el, er)
 			if best == "" || score < strings.Count(best, "]") {
@@ -350,6 +449,19 @@ func (ge *GuardEngine) CheckEquation(c *Ctx, rule string, eq Equation, guards []
 				bestWhere = where
 			}
 		}
+	}
+	// a case split is complete when both sides of the same nil test are covered
+	for _, a := range cases {
+		for _, b := range cases {
+			if a.q == b.q && a.op == "==" && b.op == "!=" {
+				c.OK(rule, eq.ID, b.where, a.desc+" ; "+b.desc+"   ["+eq.Clause+"]")
+				return
+			}
+		}
+	}
+	if len(cases) > 0 && best == "" {
+		best = "the identity is only enforced where " + cases[0].q + " " + cases[0].op + " nil (" + cases[0].where + "); no guard covers the other case"
+		bestWhere = cases[0].where
 	}
 	if best == "" {
 		best = "no rejecting comparison of two sums with these terms found from " + eq.Entry
